@@ -349,6 +349,87 @@ fn constructs(report: &Report, full: bool) {
     report.nontrivial.fetch_add(nontriv.load(Ordering::Relaxed), Ordering::Relaxed);
 }
 
+
+/// Wide non-ASCII data in every position an error message (or a trace) may quote: object keys,
+/// string values, index expressions, partial names, filter inputs and arguments.  The strings are
+/// `"a"*s + c*N` for 2-, 3- and 4-byte characters `c` and every shift `s`, so that a byte-based cut
+/// at *any* offset lands inside a character for at least one of them.
+fn error_paths(report: &Report) {
+    let parser = {
+        let partials = vec![("p".to_string(), "<{{ x }}>".to_string())];
+        cfgs::build(Config::Full, Policy::Eager, &partials).expect("parser")
+    };
+    let mut wides: Vec<String> = Vec::new();
+    for (c, width, n) in [('é', 2usize, 150usize), ('語', 3, 100), ('👍', 4, 75)] {
+        for s in 0..width {
+            wides.push(format!("{}{}", "a".repeat(s), c.to_string().repeat(n)));
+        }
+    }
+    // multi-key objects whose joined key lists are long and non-ASCII at staggered offsets
+    let many_keys = |c: char, k: usize| V::Obj((0..12).map(|i| (format!("{}{}{}", "k".repeat(i % k), c.to_string().repeat(4), i), V::Int(i as i64))).collect());
+    let filters = filter_names(&parser);
+    let templates: Vec<String> = {
+        let mut t: Vec<String> = [
+            "{{ o.missing }}", "{{ o['missing'] }}", "{{ o.missing.deeper }}", "{{ o[w] }}", "{{ o[w].x }}", "{{ arr[w] }}", "{{ w.missing }}", "{{ w[0] }}", "{{ w[w] }}",
+            "{{ n.o.missing }}", "{{ n.missing }}", "{{ m.missing }}", "{{ m[w] }}", "{{ missing }}", "{{ arr[99] }}", "{{ arr.missing }}",
+            "{% assign x = o.missing %}", "{% assign x = m.missing | upcase %}", "{% if o.missing == 1 %}{% endif %}", "{% if m contains o.missing %}{% endif %}", "{% unless w.x %}{{ w.x }}{% endunless %}",
+            "{% for i in o.missing %}{% endfor %}", "{% for i in w %}{% endfor %}", "{% for i in (1..w) %}{% endfor %}", "{% for i in (w..2) %}{% endfor %}", "{% for i in arr limit: w %}{% endfor %}", "{% for i in arr offset: w %}{% endfor %}",
+            "{% tablerow i in arr cols: w %}{% endtablerow %}", "{% tablerow i in w %}{% endtablerow %}", "{% include w %}", "{% include 'p' x: o.missing %}", "{% include o.missing %}", "{% render 'p', x: m.missing %}", "{% render 'p' for w as x %}",
+            "{% cycle w: 1, 2 %}", "{% cycle o.missing, 2 %}", "{% case o.missing %}{% when 1 %}{% endcase %}", "{% case 1 %}{% when m.missing %}{% endcase %}", "{% capture c %}{{ o.missing }}{% endcapture %}",
+            "{% for i in arr %}{% for j in arr %}{{ o.missing }}{% endfor %}{% endfor %}", "{% increment w %}{{ w.missing }}", "{% ifchanged %}{{ m.missing }}{% endifchanged %}",
+        ].iter().map(|s| s.to_string()).collect();
+        for (f, kws) in &filters {
+            t.push(format!("{{{{ w | {f} }}}}"));
+            t.push(format!("{{{{ w | {f}: w }}}}"));
+            t.push(format!("{{{{ w | {f}: w, w }}}}"));
+            t.push(format!("{{{{ 1 | {f}: w }}}}"));
+            t.push(format!("{{{{ arr | {f}: w }}}}"));
+            t.push(format!("{{{{ m | {f}: w }}}}"));
+            t.push(format!("{{{{ w | {f}: o.missing }}}}"));
+            t.push(format!("{{{{ o.missing | {f} }}}}"));
+            t.push(format!("{{{{ ms | {f}: w }}}}"));
+            if let Some(k) = kws.first() {
+                t.push(format!("{{{{ w | {f}: {k}: w }}}}"));
+            }
+        }
+        t
+    };
+    let datas: Vec<V> = wides
+        .iter()
+        .enumerate()
+        .map(|(i, w)| {
+            let c = w.chars().last().unwrap();
+            V::obj(&[
+                ("w", V::s(w)),
+                ("o", V::Obj(vec![(w.clone(), V::Int(1))])),
+                ("m", many_keys(c, 1 + i % 4)),
+                ("ms", V::Arr(vec![V::Obj(vec![(w.clone(), V::s(w))]), many_keys(c, 2)])),
+                ("n", V::obj(&[("o", V::Obj(vec![(w.clone(), V::Nil)]))])),
+                ("arr", V::Arr(vec![V::s(w), V::Int(1)])),
+            ])
+        })
+        .collect();
+    let globals: Vec<liquid::Object> = datas.iter().map(|d| d.to_object()).collect();
+    let total = (templates.len() * datas.len()) as u64;
+    let name = format!("error-paths: {} error-prone constructs and filter calls x {} wide non-ASCII data objects", templates.len(), datas.len());
+    let nontriv = AtomicU64::new(0);
+    let parse_errs = AtomicU64::new(0);
+    par_range(
+        report,
+        &name,
+        total,
+        |i| {
+            let (ti, di) = ((i / datas.len() as u64) as usize, (i % datas.len() as u64) as usize);
+            total_render(report, "error-paths", i, &parser, &templates[ti], &datas[di], &globals[di], &nontriv, &parse_errs);
+        },
+        |i| json!({"kind":"render","template":templates[(i / datas.len() as u64) as usize],"data":datas[(i % datas.len() as u64) as usize].to_json(),"partials":[["p","<{{ x }}>"]]}),
+    );
+    report.sample(json!({"family": name, "template": templates[0], "data_keys": "w (wide string), o {w: 1}, m (12 non-ASCII keys), ms, n, arr"}));
+    // here an *error* is the interesting outcome: count every completed render as non-trivial
+    report.nontrivial.fetch_add(total - parse_errs.load(Ordering::Relaxed), Ordering::Relaxed);
+    report.family(FamilyStat { name, cases: total, nontrivial: total - parse_errs.load(Ordering::Relaxed), skipped: parse_errs.load(Ordering::Relaxed), note: "strings \"a\"*s + c*N for 2/3/4-byte c and every shift s (a byte cut at any offset splits a character in one of them); errors are expected, panics and non-UTF-8 are not".into() });
+}
+
 /// Generated well-formed programs rendered on type-confused data.
 fn confused_programs(report: &Report, thorough: bool) {
     use crate::props::c08;
@@ -393,5 +474,6 @@ pub fn run(tier: Tier) -> i32 {
     filter_matrix(&report, full);
     constructs(&report, full);
     confused_programs(&report, full);
+    error_paths(&report);
     report.finish()
 }
